@@ -23,8 +23,9 @@
 (* after reformat_when_finished lay2 has the documented shape and every    *)
 (* indent is len(name)+2.  ValueError on leaving as in C11, plus -- only   *)
 (* while KNOWN_HIDDEN = "1", the open finding X04-sort-hidden-separator -- *)
-(* after a sort put an item with a hidden separator first (KNOWNHIT is     *)
-(* printed).  A field outside UpDomain is only opened: reading must not    *)
+(* after a sort put an item with a hidden separator first (a line         *)
+(* <<"REJECT", tid, "known-hidden">> tells the harness that the finding    *)
+(* was needed to explain the trace).  A field outside UpDomain is only opened: reading must not    *)
 (* fail (ValueError accepted only while KNOWN_TRAIL = "1").                *)
 (***************************************************************************)
 EXTENDS ListSort, Json, IOUtils, TLCExt
@@ -76,7 +77,7 @@ TStep ==
    /\ LET e == Tr.events[l] IN
       /\ \/ /\ e.op = "open" /\ InDomain /\ Derive(Tr.mode, cur) /\ e.obs = vals' /\ UNCHANGED cur /\ chg' = FALSE
          \/ /\ e.op = "open" /\ ~InDomain /\ Len(Tr.events) = 1          \* the text of the last item is unclear: just read it
-            /\ Chk(e.res = "ok" \/ (KnownTrail /\ e.res = "ValueError" /\ PrintT(<<"KNOWNHIT", tid, "trail">>)))
+            /\ Chk(e.res = "ok" \/ (KnownTrail /\ e.res = "ValueError" /\ PrintT(<<"REJECT", tid, "known-trail">>)))
             /\ res' = e.res /\ UNCHANGED <<vals, tail, ann, pend, cknown, reform, khid, cur, chg>>
          \/ /\ e.op = "reopen" /\ Same("ok") /\ KeepX /\ e.obs = vals /\ UNCHANGED <<cur, chg>>
          \/ /\ e.op = "append" /\ XAppend(e.v) /\ e.obs = vals' /\ UNCHANGED cur /\ chg' = TRUE
@@ -106,7 +107,7 @@ TStep ==
             /\ Same("ok") /\ KeepX /\ UNCHANGED <<cur, chg>>
          \/ /\ e.op = "close" /\ e.res = "ValueError" /\ chg
             /\ Chk(\/ CloseMayRefuse
-                   \/ (KnownHidden /\ XCloseMayRefuse(TRUE) /\ PrintT(<<"KNOWNHIT", tid, "hidden">>)))
+                   \/ (KnownHidden /\ XCloseMayRefuse(TRUE) /\ PrintT(<<"REJECT", tid, "known-hidden">>)))
             /\ e.lay2 = Squeeze(cur)
             /\ Same("ValueError") /\ KeepX /\ UNCHANGED <<cur, chg>>
       /\ res' = e.res              \* the call returned / raised what the reference says
